@@ -971,6 +971,16 @@ func ruleC09Replay(c *Ctx) {
 			if _, isB := call.Call.Value.(*ssa.Builtin); isB {
 				continue
 			}
+			hv := call.Call.Value
+			if u, ok := hv.(*ssa.UnOp); ok && u.Op == token.MUL {
+				if _, isFV := u.X.(*ssa.FreeVar); isFV {
+					hv = u.X
+				}
+			}
+			switch hv.(type) {
+			case *ssa.FreeVar, *ssa.Parameter:
+				continue // a helper that is handed one particular handler (the retry closure of a blocking command) is not the dispatcher
+			}
 			if n, ok := call.Call.Value.Type().(*types.Named); ok && (n.Obj().Name() == "cmdHandler" || (curProg != nil && curProg.isPkgType(n, "cmdHandler"))) {
 				D, H = fn, call
 			}
